@@ -105,6 +105,9 @@ func (r *runningRoutine[K, V]) execute(
 		select {
 		case <-ctx.Done():
 			err = context.Canceled
+			// the previous instance may still be running: wait for it before
+			// closing exitedCh, which releases the instance waiting on us.
+			<-waitCh
 		case <-waitCh:
 		}
 	} else if err = ctx.Err(); err != nil {
